@@ -40,7 +40,26 @@ def configs(ctx):
             items.append((b, q, H, W, J, 1, 2, 2, -1, 0, 0))
     items.append(('near_sym_a', 'qshift_a', 6, 10, 2, 2, 3, 2, -1, 0, 0))
     items.append(('legall', 'qshift_06', 12, 9, 1, 1, 1, 2, -1, 0, 0))
+    items += user_items(ctx)
+    # layouts with the real/imaginary axis well below the orientation axis (all 30 pairs are decided by C12)
+    for (o, r) in ((3, 1), (4, 1), (-2, 1)):
+        items.append(('near_sym_a', 'qshift_a', 6, 10, 2, 1, 2, o, r, 0, 0))
     return items
+
+
+def user_items(ctx, inverse=False):
+    """filter sets handed in as arrays ('biort (str or tuple of arrays)'): every array form the preparation code
+    accepts -- flat (N,), column (N,1), row (1,N), python list -- with formal taps"""
+    out = []
+    for form in ('flat', 'col', 'row', 'list'):
+        ub, uq = 'user:%s:5,7' % form, 'user:%s:10' % form
+        for (b, q, H, W, J) in ((ub, uq, 12, 16, 3), (ub, 'qshift_a', 7, 10, 2), ('near_sym_a', uq, 10, 13, 2),
+                                ('user:%s:13,19' % form, 'user:%s:14' % form, 16, 12, 2)):
+            if ctx.quick and form in ('flat', 'list') and J == 2 and b != ub:
+                continue
+            out.append((b, q, H, W, J, 1, 2, 2, -1, 0, 0) if not inverse else
+                       (b, q, H, W, J, 1, 2, 2, -1, 0, 'none', False))
+    return out
 
 
 def check(ctx):
